@@ -12,10 +12,12 @@ import (
 	"time"
 
 	revresult "github.com/notaryproject/notation-core-go/revocation/result"
+	"github.com/notaryproject/notation-core-go/signature"
 	"github.com/notaryproject/notation-go"
 	"github.com/notaryproject/notation-go/verifier"
 	"github.com/notaryproject/notation-go/verifier/trustpolicy"
 	"github.com/notaryproject/notation-go/xverif/common"
+	pluginfw "github.com/notaryproject/notation-plugin-framework-go/plugin"
 	"github.com/opencontainers/go-digest"
 	ocispec "github.com/opencontainers/image-spec/specs-go/v1"
 )
@@ -28,6 +30,7 @@ type Input struct {
 	ValidatorError bool     `json:"validatorError"`
 	Methods        []string `json:"methods"`
 	ServerErrors   []bool   `json:"serverErrors"`
+	IdentityPlugin bool     `json:"identityPlugin"`
 }
 
 type Obs struct {
@@ -65,12 +68,18 @@ func newWorld() *world {
 	return w
 }
 
-func (w *world) env(n int, scheme, format string) []byte {
-	k := fmt.Sprint(n, scheme, format)
+const identityPluginName = "identity-only-plugin"
+
+func (w *world) env(n int, scheme, format string, plugin bool) []byte {
+	k := fmt.Sprint(n, scheme, format, plugin)
 	if b, ok := w.envs[k]; ok {
 		return b
 	}
-	b := common.MustSign(common.EnvOpts{Format: format, Chain: w.chains[n], Target: &target, Scheme: scheme,
+	var attrs []signature.Attribute
+	if plugin {
+		attrs = []signature.Attribute{{Key: verifier.HeaderVerificationPlugin, Critical: true, Value: identityPluginName}}
+	}
+	b := common.MustSign(common.EnvOpts{Format: format, Chain: w.chains[n], Target: &target, Scheme: scheme, ExtAttrs: attrs,
 		SigningTime: time.Now().Add(-time.Hour).Truncate(time.Second)})
 	w.envs[k] = b
 	return b
@@ -89,7 +98,7 @@ func runCase(w *world, in Input, format string) Obs {
 	if in.Scheme == "signingAuthority" {
 		scheme, storeType = common.SchemeAuthority, "signingAuthority"
 	}
-	env := w.env(n, scheme, format)
+	env := w.env(n, scheme, format, in.IdentityPlugin)
 	store := common.NewMemStore()
 	store.Certs[storeType+":c05"] = []*x509.Certificate{chain.Root().Cert}
 	rev := &common.ScriptedRevocation{}
@@ -124,6 +133,15 @@ func runCase(w *world, in Input, format string) Obs {
 		TrustedIdentities:     []string{"*"},
 	}}}
 	opts := verifier.VerifierOptions{OCITrustPolicy: doc}
+	if in.IdentityPlugin {
+		// a plugin that owns the trusted-identity check only and approves the identity
+		opts.PluginManager = &common.ScriptedManager{Plugins: map[string]pluginfw.Plugin{identityPluginName: &common.ScriptedPlugin{
+			Metadata: &pluginfw.GetMetadataResponse{Name: identityPluginName, Description: "d", Version: "1.0.0", URL: "u",
+				SupportedContractVersions: []string{"1.0"}, Capabilities: []pluginfw.Capability{pluginfw.CapabilityTrustedIdentityVerifier}},
+			VerifyResp: &pluginfw.VerifySignatureResponse{VerificationResults: map[pluginfw.Capability]*pluginfw.VerificationResult{
+				pluginfw.CapabilityTrustedIdentityVerifier: {Success: true}}},
+		}}}
+	}
 	if in.Iface == "validator" {
 		opts.RevocationCodeSigningValidator = rev
 	} else {
@@ -217,7 +235,8 @@ func Run(c *common.Ctx) error {
 								if verr && c.Rand.Intn(4) != 0 {
 									continue
 								}
-								in := Input{Vec: vec, Scheme: scheme, Iface: iface, Action: action, ValidatorError: verr}
+								in := Input{Vec: vec, Scheme: scheme, Iface: iface, Action: action, ValidatorError: verr,
+									IdentityPlugin: c.Rand.Intn(4) == 0}
 								for k := 0; k < n; k++ {
 									in.Methods = append(in.Methods, methods[c.Rand.Intn(len(methods))])
 									in.ServerErrors = append(in.ServerErrors, c.Rand.Intn(4) == 0)
